@@ -474,7 +474,7 @@ class Plane:
                 # contained in adjacent masks that may be present in the sliced
                 # amp and opd arrays.
                 mask = self.mask if self.mask.ndim < 3 else self.mask[n]
-                amp = self.amplitude * mask[s] if self.amplitude.size == 1 else self.amplitude[s] * mask[s]
+                amp = self.amplitude if self.amplitude.size == 1 else self.amplitude[s]
                 opd = self.opd if self.opd.size == 1 else self.opd[s]
 
                 # the phasor is evaluated in double precision whatever type
@@ -483,8 +483,14 @@ class Plane:
                 amp = np.asarray(amp, dtype=np.result_type(np.asarray(amp).dtype, np.float64))
                 opd = np.asarray(opd, dtype=np.result_type(np.asarray(opd).dtype, np.float64))
 
-                # construct complex phasor
-                phasor = Field(data=amp*np.exp(2*np.pi*1j*opd/float(wavefront.wavelength)),
+                # construct complex phasor: amplitude and phase inside the
+                # mask, exactly zero outside it (whatever the arrays hold
+                # there - measured maps carry NaN or fill values - and without
+                # letting the type of the mask enter the arithmetic)
+                with np.errstate(invalid='ignore', over='ignore'):
+                    data = np.where(np.asarray(mask[s]) != 0,
+                                    amp*np.exp(2*np.pi*1j*opd/float(wavefront.wavelength)), 0)
+                phasor = Field(data=data,
                                pixelscale=self.pixelscale,
                                offset=lentil.helper.slice_offset(s, self.shape),
                                tilt=self.tilt[n::self.size] if self.tilt else [])
